@@ -32,7 +32,7 @@ OPTIONAL = ["ellipse_axis_radii", "circularity", "perimeter", "iou"]
 # initial state
 # ----------------------------------------------------------------------------------------
 def gen_config(rnd, *, seg=None, ndim=None, allow_optional=True, per_axis=True, allow_seg_axes=False,
-               max_frames=6, big_frames=False) -> dict:
+               max_frames=6, big_frames=False, allow_stray=False) -> dict:
     ndim = ndim if ndim is not None else (4 if rnd.random() < 0.25 else 3)
     seg = seg if seg is not None else rnd.random() < 0.6
     r = rnd.random()
@@ -89,6 +89,10 @@ def gen_config(rnd, *, seg=None, ndim=None, allow_optional=True, per_axis=True, 
         cfg["shape"] = [8, 8, 8][: ndim - 1]
         if per_axis and rnd.random() < 0.3:
             cfg["pos_mode"] = "axes"
+    if allow_stray and seg and not cfg.get("static") and rnd.random() < 0.15:
+        # the label image also holds detections that are no nodes of the solution ("unselected
+        # detections", which the annotators skip): they must survive everything untouched
+        cfg["stray"] = True
     if big_frames and not cfg.get("static") and rnd.random() < 0.2:
         cfg["layout"] = "lanes"  # long tracks over all frames (see _gen_init_lanes)
         cfg["frames"] = rnd.randint(max(3, max_frames - 4), max_frames + 4)
@@ -224,8 +228,20 @@ def gen_init(rnd, cfg=None, *, max_nodes=10, need_edges=False) -> dict:
         nodes.append(node)
         if parent is not None:
             children[parent["id"]] = children.get(parent["id"], 0) + 1
+    stray = []
+    if cfg.get("stray") and nodes:
+        used = {m["id"] for m in nodes}
+        gaps = [i for i in range(min(used) + 1, max(used)) if i not in used]
+        rnd.shuffle(gaps)
+        for lab in gaps[: rnd.randint(1, 3)]:
+            t = rnd.randint(0, frames - 1)
+            boxes = _place_boxes(rnd, shape, occupied[t], thick=cfg["ndim"] == 4)
+            if boxes is None:
+                continue
+            occupied[t] |= box_mask(shape, boxes)
+            stray.append({"label": lab, "t": t, "boxes": boxes})
     # parents that were skipped (frame full) cannot happen: parents are taken from ``nodes``
-    return {"cfg": cfg, "nodes": nodes,
+    return {"cfg": cfg, "nodes": nodes, "stray": stray,
             "id_offsets": [rnd.randint(0, 6) + (300 if rnd.random() < 0.2 else 0),
                            rnd.randint(0, 6) + (300 if rnd.random() < 0.2 else 0)],
             # order in which nodes enter the graph and in which pre-existing ids are handed to
@@ -350,6 +366,11 @@ class World:
         for nd in order:
             if nd["parent"] is not None:
                 g.add_edge(nd["parent"], nd["id"], **{CUSTOM_EDGE: nd[CUSTOM_EDGE]})
+        self.stray0 = {}
+        for sd in init.get("stray") or []:
+            if seg is not None and sd["label"] not in g:
+                seg[sd["t"]][box_mask(self.shape, sd["boxes"])] = sd["label"]
+                self.stray0[int(sd["label"])] = int(sd["t"])
         tkey = cfg["tracklet_key"] or "track_id"
         lkey = cfg["lineage_key"] or "lineage_id"
         if cfg["route"] in ("ids", "from_tracks_ids", "from_tracks_partial_ids"):
@@ -459,6 +480,11 @@ class World:
         self.emissions.append(args)
 
     # -- views -----------------------------------------------------------------------------
+    def stray_now(self) -> dict[int, int]:
+        """label -> frame of the detections in the label image that are (still) no nodes"""
+        g = self.tracks.graph
+        return {lab: t for lab, t in getattr(self, "stray0", {}).items() if lab not in g}
+
     def nodes(self) -> list[int]:
         return sorted(int(n) for n in self.tracks.graph.nodes)
 
@@ -508,7 +534,11 @@ class World:
                 pixels = tuple(np.asarray(a, dtype=np.int64) for a in op["pixels"])
             out.action = ua.UserAddNode(tr, op["node"], attrs, pixels=pixels, force=op.get("force", False))
         elif kind == "delete_node":
-            out.action = ua.UserDeleteNode(tr, op["node"])
+            if op.get("known_pixels") and tr.segmentation is not None and op["node"] in tr.graph:
+                # "the pixels of the node, if known": the caller looked them up itself
+                out.action = ua.UserDeleteNode(tr, op["node"], pixels=tr.get_pixels(op["node"]))
+            else:
+                out.action = ua.UserDeleteNode(tr, op["node"])
         elif kind == "add_edge":
             out.action = ua.UserAddEdge(tr, tuple(op["edge"]), force=op.get("force", False))
         elif kind == "delete_edge":
@@ -625,6 +655,14 @@ def _pick(rnd, seq):
 
 
 def _unused_node_id(world, rnd):
+    v = _unused_node_id0(world, rnd)
+    stray = world.stray_now()
+    while v in stray:  # labels are unique across time: never the label of an unselected detection
+        v = max([*world.nodes(), *stray, v]) + 1
+    return v
+
+
+def _unused_node_id0(world, rnd):
     nodes = world.nodes()
     r = rnd.random()
     if r < 0.5:
@@ -632,10 +670,12 @@ def _unused_node_id(world, rnd):
             warnings.simplefilter("ignore")
             return int(world.tracks._get_new_node_ids(1)[0])
     top = max(nodes) if nodes else 0
+    if world.tracks.segmentation is None and 0 not in nodes and r > 0.9:
+        return 0  # a valid node id when there is no label image
     if r < 0.8:
         return top + rnd.randint(1, 6)
     # a gap below the maximum, if any
-    used = set(nodes)
+    used = set(nodes) | set(world.stray_now())  # labels are unique across time
     free = [i for i in range(max(1, top - 300), top) if i not in used]
     return _pick(rnd, free) if free else top + 1
 
@@ -690,7 +730,10 @@ def gen_op(world: World, rnd, weights: dict, refusal_bias: float = 0.08) -> dict
         return op
     if kind == "delete_node":
         n = (max(nodes) + rnd.randint(1, 3)) if bad else _pick(rnd, nodes)
-        return {"op": "delete_node", "node": n}
+        op = {"op": "delete_node", "node": n}
+        if has_seg and rnd.random() < 0.3:
+            op["known_pixels"] = True
+        return op
     if kind == "add_edge":
         if bad and rnd.random() < 0.5:
             e = [_pick(rnd, nodes), max(nodes) + 2]
@@ -901,9 +944,19 @@ def _gen_paint(world, rnd, bad=False) -> dict:
     m = box_mask(world.shape, boxes)
     if rnd.random() < 0.06 and (seg[t] == 0).any():
         m = seg[t] == 0  # flood-fill: paint all the background of the frame (no 0 left in it)
+    stray_here = [lab for lab, ts in world.stray_now().items() if ts == t]
+    for lab in stray_here:
+        # strokes leave unselected detections alone (the action is only defined on node labels)
+        m = m & (seg[t] != lab)
+    if not m.any():
+        m = seg[t] == 0
+        if not m.any():
+            return {"op": "undo"}
     idx = np.nonzero(m)
     r = rnd.random()
-    if r < 0.25 and not (m == (seg[t] == 0)).all():
+    if stray_here and rnd.random() < 0.3:
+        value = _pick(rnd, stray_here)  # the user picks the label of an unselected detection
+    elif r < 0.25 and not (m == (seg[t] == 0)).all():
         value = 0
     elif r < 0.6 and in_frame:
         value = _pick(rnd, in_frame)
@@ -912,7 +965,7 @@ def _gen_paint(world, rnd, bad=False) -> dict:
         top = int(np.iinfo(seg.dtype).max)
         if value > top:
             # a label layer cannot hold (so a GUI cannot paint) a value beyond its dtype
-            used = set(world.nodes())
+            used = set(world.nodes()) | set(world.stray_now())
             free = [i for i in range(top, max(top - 400, 0), -1) if i not in used]
             value = _pick(rnd, free[:20]) if free else 0
     op = {"op": "paint", "time": t, "pixels": [a.tolist() for a in idx], "value": int(value),
@@ -936,6 +989,11 @@ def _gen_paint(world, rnd, bad=False) -> dict:
         t2 = (t + 1 + rnd.randint(0, world.frames - 2)) % world.frames
         if value not in world.nodes():  # a fresh label only (an existing label belongs to one frame)
             m2 = box_mask(world.shape, [_rand_box(rnd, world.shape, maxlen=3, minlen=2 if world.ndim == 4 else 1)])
+            for lab, ts in world.stray_now().items():
+                if ts == t2:
+                    m2 = m2 & (seg[t2] != lab)  # strokes leave unselected detections alone
+            if not m2.any():
+                return op
             op["second_frame"] = {"time": t2, "pixels": [a.tolist() for a in np.nonzero(m2)],
                                   "first": rnd.random() < 0.5}
     return op
